@@ -20,13 +20,13 @@
     * timestamps, filename and metadata are not observed by C18 and are omitted.
 
   Termination guards (explicit, as the real loops need them):
-    * `cut` (the `for i := 0; i < bufLen; i += chunkSize` loop of upload()) needs chunkSize > 0:
-      the real loop never ends for chunkSize = 0 and panics for chunkSize < 0; the model uses fuel
-      `bufLen + 1`, which is exact for chunkSize > 0.
-    * `writeLoop` (the `for` of Write) makes progress only when upload(false) frees buffer space,
-      i.e. when chunkSize ≤ len(buffer); for chunkSize > len(buffer) the real Write spins forever once
-      the buffer is full (copy returns 0).  The model uses fuel `len(data) + 1` and reports
-      `Err.diverged` when it runs out (never for 0 < chunkSize ≤ bufCap, see Proofs).
+    * OpenUploadStreamWithID rejects chunkSize ≤ 0 and chunkSize > len(buffer) (`openUpload`), so every
+      stream that exists satisfies 0 < chunkSize ≤ bufCap.
+    * `cut` (the `for i := 0; i < bufLen; i += chunkSize` loop of upload()) uses fuel `bufLen + 1`,
+      exact for chunkSize > 0.
+    * `writeLoop` (the `for` of Write) makes progress because upload(false) frees buffer space when
+      chunkSize ≤ len(buffer); fuel `len(data) + 1`; `Err.diverged` marks exhausted fuel and is never
+      returned for a stream created by `openUpload` (Props/C18 `write_never_diverges`).
     * `readLoop` (the `for read < len(buf)` of Read) gets fuel `len(buf) + remaining cursor + 1`.
 -/
 namespace Lungo.GridFS
@@ -47,7 +47,8 @@ inductive Err where
   | notFinished       -- "upload is not finished"
   | fileNotFound      -- ErrFileNotFound
   | uploadInProgress  -- ErrUploadInProgress
-  | badChunkSize      -- "invalid chunk size %d in file metadata"
+  | badChunkSize      -- "invalid chunk size" (OpenUploadStreamWithID) / "invalid chunk size %d in file metadata"
+  | invalidWhence     -- "invalid whence"
   | negPos            -- ErrNegativePosition
   | expectedChunk     -- "expected chunk"
   | wrongIndex        -- gridfs.ErrWrongIndex
@@ -62,7 +63,7 @@ def Err.name : Err → String
   | .noDocuments => "no_documents" | .badState => "bad_state" | .chunkSizeMismatch => "chunk_size_mismatch"
   | .invalidChunk => "invalid_chunk" | .dupKey => "dup_key" | .markerUpdate => "marker_update"
   | .notFinished => "not_finished" | .fileNotFound => "file_not_found" | .uploadInProgress => "upload_in_progress"
-  | .badChunkSize => "bad_chunk_size" | .negPos => "negative_position" | .expectedChunk => "expected_chunk"
+  | .badChunkSize => "bad_chunk_size" | .invalidWhence => "invalid_whence" | .negPos => "negative_position" | .expectedChunk => "expected_chunk"
   | .wrongIndex => "wrong_index" | .wrongSize => "wrong_size" | .eof => "eof" | .panic => "panic"
   | .diverged => "diverged"
 
@@ -158,6 +159,12 @@ structure UploadStream where
 /-- newUploadStream -/
 def UploadStream.new (tracked : Bool) (id chunkSize bufCap : Nat) : UploadStream :=
   { tracked, id, chunkSize, bufCap }
+
+/-- OpenUploadStreamWithID: the chunk size (a Go int, possibly ≤ 0) must fit the upload buffer;
+    otherwise no stream is created (and nothing is stored). -/
+def openUpload (tracked : Bool) (id : Nat) (chunkSize : Int) (bufCap : Nat) : Except Err UploadStream :=
+  if chunkSize ≤ 0 ∨ chunkSize > bufCap then .error .badChunkSize
+  else .ok (UploadStream.new tracked id chunkSize.toNat bufCap)
 
 /-- The chunk-cutting loop of upload(final): returns the cut chunk payloads and the bytes that stay.
     `buf` is s.buffer[i:s.bufLen]; `piece` has size = min(bufLen − i, chunkSize) bytes. -/
@@ -382,15 +389,16 @@ def DownloadStream.seekPos (st : Store) (s : DownloadStream) (position : Int) : 
     | (s, some e) => (s, 0, some e)
     | (s, none) => ({ s with position := position.toNat }, position.toNat, none)
 
-/-- DownloadStream.Seek; returns (stream, position, err).  An unknown whence leaves `position = 0`. -/
+/-- DownloadStream.Seek; returns (stream, position, err).  An unknown whence is an error and nothing is
+    seeked. -/
 def DownloadStream.seek (st : Store) (s : DownloadStream) (offset whence : Int) : DownloadStream × Nat × Option Err :=
   if s.closed then (s, 0, some .closed)
-  else
+  else if whence = 0 ∨ whence = 1 ∨ whence = 2 then
     s.seekPos st
       (if whence = 0 then offset
        else if whence = 1 then wrap64 (s.position + offset)
-       else if whence = 2 then wrap64 (s.file.length + offset)
-       else 0)
+       else wrap64 (s.file.length + offset))
+  else (s, 0, some .invalidWhence)
 
 /-- DownloadStream.Skip -/
 def DownloadStream.skip (st : Store) (s : DownloadStream) (n : Int) : DownloadStream × Nat × Option Err :=
@@ -482,6 +490,15 @@ def uploadAll (st : Store) (tracked : Bool) (id c bufCap : Nat) (ws : List Bytes
   match writeAll st (UploadStream.new tracked id c bufCap) ws with
   | (st, _, some e) => (st, some e)
   | (st, s, none) => let r := s.close st; (r.1, r.2.2)
+
+/-- the same through OpenUploadStreamWithID's chunk size guard: a rejected open stores nothing -/
+def upload (st : Store) (tracked : Bool) (id : Nat) (c : Int) (bufCap : Nat) (ws : List Bytes) : Store × Option Err :=
+  match openUpload tracked id c bufCap with
+  | .error e => (st, some e)
+  | .ok s =>
+    match writeAll st s ws with
+    | (st, _, some e) => (st, some e)
+    | (st, s, none) => let r := s.close st; (r.1, r.2.2)
 
 /-! ## Tracked uploads in segments (the client protocol of Suspend/Resume)
 
